@@ -785,7 +785,7 @@ void h_lbuf_opt_bounded(void)
 	LB_GHOST_INIT();
 	lb->ln_n = nondet_int();
 	__CPROVER_assume(0 <= lb->ln_n && lb->ln_n <= 4 && 0 <= pos && pos <= lb->ln_n && 0 <= n_del && n_del <= lb->ln_n - pos);
-	lb->hist_sz = nondet_bool() ? 2 : 0;
+	lb->hist_sz = 2;
 	lb->hist = lb->hist_sz ? malloc(2 * sizeof(struct lopt)) : (struct lopt *) 0;
 	lb->hist_n = nondet_int(); lb->hist_u = nondet_int();
 	__CPROVER_assume(0 <= lb->hist_u && lb->hist_u <= lb->hist_n && lb->hist_n <= lb->hist_sz);
@@ -799,9 +799,14 @@ void h_lbuf_opt_bounded(void)
 			old[i] = lb->hist[i];
 		}
 	for (i = 0; i < NMARKS; i++) {
-		lb->mark[i] = nondet_int();
-		lb->mark_off[i] = nondet_int();
+		lb->mark[i] = -1;	/* unset */
+		lb->mark_off[i] = 0;
 	}
+	/* three marks (first, a middle one, last of the saved range) take any value */
+	lb->mark[0] = nondet_int(); lb->mark_off[0] = nondet_int();
+	lb->mark[5] = nondet_int(); lb->mark_off[5] = nondet_int();
+	lb->mark[NMARKS_BASE - 1] = nondet_int(); lb->mark_off[NMARKS_BASE - 1] = nondet_int();
+	g_lopt_done_calls = 0;
 	int u0 = lb->hist_u, n0 = lb->hist_n, done0 = g_lopt_done_calls;
 	g_LC = nondet_int();
 	lbuf_opt(lb, has_buf ? g_sb_text : (char *) 0, pos, n_del);
